@@ -142,8 +142,8 @@ pub mod spec {
 }
 use spec::*;
 
-const KINDS: [&str; 13] = [
-    "none", "alter_path", "drop_path", "add_path", "swap_path", "alter_old", "drop_old", "add_old", "alter_new",
+const KINDS: [&str; 14] = [
+    "drop_last", "none", "alter_path", "drop_path", "add_path", "swap_path", "alter_old", "drop_old", "add_old", "alter_new",
     "drop_new", "add_new", "old_count", "new_count",
 ];
 
@@ -267,14 +267,19 @@ pub fn gen(rng: &mut Rng, thorough: bool, out: &mut Vec<String>) {
             oc, fmt_digests(&op), fmt_digests(&leafs), kind, pos, fmt_digest(&d)
         ));
     }
-    // the directed `unwrap_or(Digest::default())` case: 2^k - 1 appended default leafs, drop/keep trailing digests
-    for k in 0..4u32 {
-        let op = digests(rng, 1);
-        let leafs = vec![Digest::default(); (1usize << k).max(1)];
-        for kind in ["none", "drop_path", "add_path"] {
+    // the directed `unwrap_or(Digest::default())` case: old count = 1 mod 4, the first appended leaf is the default
+    // digest and is the last digest of the proof; dropping it is "repaired" by unwrap_or but must be rejected
+    for i in 0..(if thorough { 200 } else { 24 }) {
+        let oc = 4 * rng.below(if i % 2 == 0 { 8 } else { 1 << 20 }) + 1;
+        let op = digests(rng, oc.count_ones() as usize);
+        let mut leafs = vec![Digest::default()];
+        if i % 3 == 0 {
+            leafs.push(rng.digest_u());
+        }
+        for kind in ["none", "drop_last", "add_path"] {
             out.push(format!(
                 "mmrs tamper {} {} {} {} {} {}",
-                1u64 << k, fmt_digests(&op), fmt_digests(&leafs), kind, u32::MAX, fmt_digest(&Digest::default())
+                oc, fmt_digests(&op), fmt_digests(&leafs), kind, u32::MAX, fmt_digest(&Digest::default())
             ));
         }
     }
@@ -476,6 +481,10 @@ pub fn run_mmrs(op: &str, a: &[Arg], st: &mut Stats) -> Option<Out> {
                 "drop_path" => {
                     expect = Some(paths.is_empty());
                     remove_at(&mut paths, pos);
+                }
+                "drop_last" => {
+                    expect = Some(paths.is_empty());
+                    paths.pop();
                 }
                 "add_path" => {
                     insert_at(&mut paths, pos, d);
